@@ -231,7 +231,18 @@ def _patch_compyle_lock():
             with self._lock():
                 if not os.path.exists(self.ext_path):
                     self._write_source(self.src_path)
-                    self.build()
+                    # a compiler killed by the kernel (16 workers compiling
+                    # very large modules at once can exhaust memory) is not
+                    # a verdict about the generated code: try again, alone
+                    # under the lock, before giving the failure to the check
+                    for attempt in (0, 1, 2):
+                        try:
+                            self.build()
+                            break
+                        except SystemExit:
+                            if attempt == 2:
+                                raise
+                            time.sleep(30 * (attempt + 1))
     write_and_build._verif_patched = True
     ext_module.ExtModule.write_and_build = write_and_build
 
